@@ -21,7 +21,11 @@ Inductive case :=
 | CSacActor (alpha : Q) (logps q1 q2 : list Q) (loss : Q)
 (* end to end: transitions stored by the real warm-up collection on a key-free finite MDP (buffer not wrapped),
    then DQN.dqn_loss on that buffer with tabular online/target Q-functions *)
-| CDqnE2E (t : tab) (stack : list wd) (p : ptab) (L : nat) (canon_a : Q) (key : kpath) (gamma : Q) (qon qtg : list (list Q)) (loss : Q).
+| CDqnE2E (t : tab) (stack : list wd) (p : ptab) (L : nat) (canon_a : Q) (key : kpath) (gamma : Q) (qon qtg : list (list Q)) (loss : Q)
+(* the same for SAC: the q_loss reported by the real sac_train on the buffer stored by the real warm-up; tabular critics
+   q(obs, a) = W[obs] + C * a (online pair, target pair), deterministic policy tables A (action) and LP (log-prob) *)
+| CSacE2E (t : tab) (stack : list wd) (p : ptab) (L : nat) (canon_a : Q) (key : kpath) (gamma alpha : Q)
+          (w1 : list Q) (c1 : Q) (w2 : list Q) (c2 : Q) (tw1 : list Q) (tc1 : Q) (tw2 : list Q) (tc2 : Q) (pa plp : list Q) (loss : Q).
 
 Definition model (c : case) : Q :=
   match c with
@@ -45,8 +49,21 @@ Definition model (c : case) : Q :=
                     (map (@t_done _ _ _) rows) (map (@t_timeout _ _ _) rows)
       | [] => 0
       end
+  | CSacE2E t stack p L canon_a key gamma alpha w1 c1 w2 c2 tw1 tc1 tw2 tc2 pa plp _ =>
+      let E := wrap_d stack (tab_env t []) in
+      let P := tab_pol p [] in
+      match off_reset E P 1 L L [0] canon_a key with
+      | (_, buf) :: _ =>
+          let rows := map (row_at d0 buf) (seq 0 L) in
+          let crit (w : list Q) (c : Q) (o : list Q) (a : Q) := nthz w (obs_idx o) 0 + c * a in
+          let vn := map (fun r => let a' := nthz pa (obs_idx (t_next r)) 0 in
+                                   sac_vnextQ alpha (crit tw1 tc1 (t_next r) a') (crit tw2 tc2 (t_next r) a') (nthz plp (obs_idx (t_next r)) 0)) rows in
+          let targets := map (fun p => tdQ gamma (t_rew (fst p)) (snd p) (t_done (fst p)) (t_timeout (fst p))) (combine rows vn) in
+          sac_q_lossQ (map (fun r => crit w1 c1 (t_obs r) (t_act r)) rows) (map (fun r => crit w2 c2 (t_obs r) (t_act r)) rows) targets
+      | [] => 0
+      end
   end.
-Definition imp (c : case) : Q := match c with CDqn _ _ _ _ _ _ _ l => l | CSacQ _ _ _ _ _ _ _ _ _ _ l => l | CSacActor _ _ _ _ l => l | CDqnE2E _ _ _ _ _ _ _ _ _ l => l end.
+Definition imp (c : case) : Q := match c with CDqn _ _ _ _ _ _ _ l => l | CSacQ _ _ _ _ _ _ _ _ _ _ l => l | CSacActor _ _ _ _ l => l | CDqnE2E _ _ _ _ _ _ _ _ _ l => l | CSacE2E _ _ _ _ _ _ _ _ _ _ _ _ _ _ _ _ _ _ l => l end.
 
 Definition agree (c : case) : bool := Qclose (1 # 1000000000000) (model c) (imp c).   (* the mean over a batch whose size is not a power of two is rounded *)
 Definition holds (c : case) : bool := agree c.
